@@ -72,7 +72,32 @@ def build_cases(rng, tier):
             c['combo'] = (tbl, bits, mode, array, be)
             c['set'] = i
             cases.append(c)
+    # few states, wide rows that do not compress: the offsets kept in yy_base / yy_def run far beyond 16 bits
+    # (the widths of the emitted arrays are chosen per table from its largest value)
+    for i in range(2 if tier == "quick" else 12):
+        r = rng.fork("wide%d" % i)
+        prog = wide_program(r)
+        inputs = rulesets.gen_inputs(prog, r.fork("inputs"), count=3, maxlen=200)
+        for j, tbl in enumerate(["-C", "-Cm"] if tier == "quick" else ["-C", "-Cm", "-Ca", "-Cam"]):
+            c = engine.make_case("w%d_%d" % (i, j), r.fork("case%d" % j), prog=prog, flex_opts=[tbl, "-8"], backend=r.pick(['nr', 'r', 'c99']))
+            c['inputs'] = inputs
+            c['combo'] = (tbl, "-8", None, False, c['backend'])
+            c['set'] = 1000 + i
+            c['fuel'] = 400000
+            cases.append(c)
     return cases
+
+
+def wide_program(rng):
+    alpha = [c for c in list(range(0x30, 0x7f)) + list(range(0xa0, 0xff)) if chr(c) not in '"\\[]^-']
+    firsts = rng.shuffle(alpha)[:rng.pick([110, 150])]
+    rules = []
+    for i, c in enumerate(firsts):
+        for j in range(3):
+            st = sorted(rng.shuffle(alpha)[:rng.pick([70, 80, 90])])
+            head = ('cat', ('c', c), ('cat', ('c', firsts[(i + j * 7 + 1) % len(firsts)]), ('plus', ('cls', ('set', False, [('ch', x) for x in st])))))
+            rules.append({'head': head, 'bol': False, 'scs': None, 'trail': None})
+    return {'csize': 256, 'caseins': False, 'scs': [], 'rules': rules}
 
 
 # ------------------------------------------------------------------ refusal table
